@@ -11,7 +11,7 @@ import (
 func init() {
 	vfRegister(&vfProp{
 		id:       "C02",
-		classes:  []string{"os", "os-alloc", "rs", "rs-alloc", "rs-park", "os-halfclose", "rs-halfclose", "os-stall", "rs-stall", "big"},
+		classes:  []string{"os", "os-alloc", "rs", "rs-alloc", "rs-park", "os-halfclose", "rs-halfclose", "os-stall", "rs-stall", "big", "inmem"},
 		gen:      c02Gen,
 		exec:     c02Exec,
 		maxSteps: 30000,
@@ -37,6 +37,11 @@ func c02Gen(class string, seed uint64, tier string) *vfScenario {
 	case "rs-park":
 		sc.Cfg["kind"], sc.Cfg["parkdata"] = 1, 1
 		sc.Cfg["alloc"] = int64(rng.IntN(2))
+	case "inmem":
+		// the package's own in-memory example backend (the property covers the handler-based server with any handlers)
+		sc.Cfg["kind"] = 3
+		sc.Cfg["alloc"] = int64(rng.IntN(2))
+		sc.Cfg["halfclose"] = int64(rng.IntN(4) / 3)
 	case "big":
 		// servers configured with a large data-packet size, a file large enough, and reads around the
 		// size at which a reply frame exceeds what the package itself would accept on receipt (256 KiB)
@@ -68,7 +73,17 @@ func c02Gen(class string, seed uint64, tier string) *vfScenario {
 		// unobservable as long as nobody upstream is blocked on those queues.
 		n = 1 + rng.IntN(6)
 	}
-	sc.Ops = vfGenProgram(rng, int(sc.Cfg["kind"]), n)
+	pk := int(sc.Cfg["kind"])
+	if pk == 3 {
+		pk = 1 // same programs as for the simulated backend (absolute virtual paths)
+	}
+	sc.Ops = vfGenProgram(rng, pk, n)
+	if class == "inmem" && rng.IntN(2) == 0 {
+		// a few more of the extended requests, back to back
+		for i, k := 0, 1+rng.IntN(3); i < k; i++ {
+			sc.Ops = append(sc.Ops, vfOp{K: "statvfs", P: []string{"/", "/f0", "/nx", "/d"}[rng.IntN(4)]})
+		}
+	}
 	if class == "big" {
 		name := "/big"
 		if sc.Cfg["kind"] == 0 {
